@@ -5,7 +5,7 @@ d=$1; tag=$2; wt=/tmp/cs_$tag
 git -C /repo worktree remove --force $wt 2>/dev/null
 git -C /repo worktree add -q --detach $wt HEAD || exit 2
 cd $wt
-export OMP_NUM_THREADS=4 PYTHONPATH=$wt PYTHONWARNINGS=ignore SEQM_WORKTREE=$wt
+export OMP_NUM_THREADS=4 PYTHONPATH=$wt PYTHONWARNINGS=ignore SEQM_WORKTREE=$wt SEQM_ROOT=$wt
 res=$d/confirm.txt; : > $res
 timeout 600 /venv/bin/python $d/demo.py > $d/demo_without.log 2>&1; echo "demo_without_change_exit=$?" >> $res
 git apply $d/patch.diff || { echo "patch_does_not_apply" >> $res; cd /; git -C /repo worktree remove --force $wt; exit 2; }
